@@ -25,7 +25,7 @@ class PartitionLink:
         min_latency: Minimum event propagation time in seconds (must be > 0).
         latency: Optional distribution for sampling arrival times.  When set,
             the coordinator overrides each event's timestamp with
-            ``send_time + latency.sample()``.  When ``None``, the event's
+            ``send_time + latency.get_latency(send_time)``.  When ``None``, the event's
             existing timestamp is used (and must satisfy
             ``event.time - send_time >= min_latency``).
         packet_loss: Probability in [0, 1) that a cross-partition event
